@@ -489,12 +489,13 @@ class C20(Property):
             parts = 48 if tier == "quick" else 8
             for src in c20gen.char_mutations(rng.randrange(parts), parts):
                 cases.append({"src": src, "muts": [], "enum": True})
-        on = {f: self._on(f) for f in (F10, F15, F16, F17, F18, F19, F20, F21, F24, F25)}
+        on = {f: self._on(f) for f in (F10, F15, F16, F17, F18, F19, F20, F21, F24, F25, F26)}
         for i in range(n):
             opts = {"percent": on[F18] and rng.random() < 0.3,
                     "f10": on[F10],
                     "strws": on[F24] and rng.random() < 0.3,
                     "cmt_tab": on[F25] and rng.random() < 0.3,
+                    "ff": on[F26] and rng.random() < 0.2,
                     "emptydoc": on[F15],
                     "svc_comment": on[F16],
                     "multi_indent": on[F17],
